@@ -127,14 +127,18 @@ theorem C07_order_appends (nt : Nat) (named ts ts' : List CTarget) (k : CKey) (u
   unfold resolveOrderKey at h
   simp only at h
   have byE : ∀ (ce : CExpr) (r : List CTarget × Nat),
-      (match indexOfExpr ts ce with
+      (if (!ce.cols.isEmpty && !ce.aggs.isEmpty) = true then
+        (Except.error (Err.compile "mixed aggregates and non-aggregates are not allowed") : CM (List CTarget × Nat))
+       else match indexOfExpr ts ce with
         | some i => (Except.ok (ts, i) : CM (List CTarget × Nat))
         | none => .ok (ts ++ [CTarget.mk ce none ce.isAggregate], ts.length)) = .ok r →
       ∃ extra, r.1 = ts ++ extra ∧ extra.all (fun t => t.name.isNone) = true := by
     intro ce r hr
     split at hr
-    · injection hr with hr; exact ⟨[], by simp [← hr], rfl⟩
-    · injection hr with hr; exact ⟨[CTarget.mk ce none ce.isAggregate], by simp [← hr], rfl⟩
+    · cases hr
+    · split at hr
+      · injection hr with hr; exact ⟨[], by simp [← hr], rfl⟩
+      · injection hr with hr; exact ⟨[CTarget.mk ce none ce.isAggregate], by simp [← hr], rfl⟩
   cases k with
   | idx n =>
     simp only at h
